@@ -665,7 +665,7 @@ class Interp:
         for k,h in s.intr_hooks.items():
             if fn.startswith(k): return h(s,args)
         if fn.startswith('llvm.eh.typeid.for'): return TYPEID(args[0].obj[1:] if isinstance(args[0],Ptr) and args[0].obj else 'null')
-        if fn.startswith('llvm.lifetime') or fn.startswith('llvm.prefetch') or fn.startswith('llvm.assume') or fn.startswith('llvm.invariant') or fn.startswith('llvm.experimental.noalias') or fn.startswith('llvm.dbg'): return None
+        if fn.startswith('llvm.lifetime') or fn.startswith('llvm.clear_cache') or fn.startswith('llvm.prefetch') or fn.startswith('llvm.assume') or fn.startswith('llvm.invariant') or fn.startswith('llvm.experimental.noalias') or fn.startswith('llvm.dbg'): return None
         if fn.startswith('llvm.memcpy') or fn.startswith('llvm.memmove'):
             d,sr,n=args[0],args[1],args[2]; assert is_c(n)
             so=s.mem.objs[sr.obj]; items=[]; k=0
